@@ -1,5 +1,5 @@
 #!/usr/bin/env bash
 # libFuzzer campaign for C07 (target chan_c07: engine E6 over E2 -- channel histories decoded from bytes by chan::fuzz,
 # run against the real emit_batcher channel under the deterministic scheduler, judged by C07's oracle in the target).
-# ~1-2 k exec/s under ASan on one core: quick 20 k runs, thorough 1.2 M runs over 12 jobs.
-exec "$(dirname "$0")/../../tools/fuzz_campaign.sh" C07 chan_c07 "$1" "$2" 20000 1200000 160 chan_history
+# ~1-2 k exec/s under ASan on one core: quick 20 k runs, thorough 360 k runs over 12 jobs.
+exec "$(dirname "$0")/../../tools/fuzz_campaign.sh" C07 chan_c07 "$1" "$2" 20000 360000 160 chan_history
